@@ -5,7 +5,7 @@ from __future__ import annotations
 
 import io
 
-from .common import hx
+from .common import ToolFailure, hx
 
 BYTECLS = [0, 1, 127, 128, 255]
 TABLE = 297
@@ -91,35 +91,141 @@ def _err(e):
     raise e
 
 
-def impl_lines(p, m, f, noesc):
-    """-> ("ok", [bytes…]) | ("err value"|"err index", None)"""
+FIELDS = ("image_id", "placement_id", "start_col", "start_row", "end_col", "end_row")
+DEFAULT_MODE = [1, 0, 1, 4, 4]          # ImagePlaceholderMode() — the default of every `mode=` parameter
+
+
+class Session:
+    """What a caller keeps between the calls of ONE sequence case: its GraphicsTerminal objects (`tid`) and its
+    ImagePlaceholder objects (`slot`), created once and then re-used / re-assigned field by field, as a long-running
+    program does.  `given` remembers what the caller last put into each slot object, so that a library call that
+    changes the caller's object is noticed."""
+
+    def __init__(self):
+        self.terms = {}
+        self.slots = {}
+        self.given = {}
+
+    def term(self, tid):
+        t = self.terms.get(tid)
+        if t is None:
+            from tupimage.graphics_terminal import GraphicsTerminal
+            out = io.BytesIO()
+            t = (GraphicsTerminal(out_command=io.BytesIO(), out_display=out, in_response=io.BytesIO(), in_userinput=io.BytesIO()), out)
+            self.terms[tid] = t
+        return t
+
+    def placeholder(self, slot, fields):
+        if slot is None:
+            return ph_obj(fields)
+        o = self.slots.get(slot)
+        if o is None:
+            o = self.slots[slot] = ph_obj(fields)
+        else:
+            for n, v in zip(FIELDS, fields):
+                setattr(o, n, v)
+        self.given[slot] = [int(v) for v in fields]
+        return o
+
+    def modified(self):
+        """slots whose object no longer holds what the caller put there"""
+        return sorted(s for s, o in self.slots.items() if [getattr(o, n) for n in FIELDS] != self.given[s])
+
+
+def _drop_defaults(kw, m, noesc=None):
+    """the call as written by a caller who leaves out every optional argument that has its default value"""
+    out = {}
+    for k, v in kw.items():
+        if k == "mode" and list(m) == DEFAULT_MODE:
+            continue
+        if k in ("pos", "formatting") and v is None:
+            continue
+        if k == "use_save_cursor" and v is True:
+            continue
+        if k in ("use_line_feeds", "no_escape") and v is False:
+            continue
+        out[k] = v
+    return out
+
+
+def impl_lines(p, m, f, noesc, sess=None, call=None):
+    """-> ("ok", [bytes…]) | ("err value"|"err index", None)
+    sess/call (sequence cases): the placeholder object of slot call["slot"]; call["omitopt"]: default-valued optional
+    arguments are left out of the call."""
+    call = call or {}
     try:
         mode = mode_obj(m)
-        lines = ph_obj(p).to_lines(mode, fmt_obj(f), no_escape=bool(noesc))
+        o = sess.placeholder(call.get("slot"), p) if sess is not None else ph_obj(p)
+        if call.get("omitopt"):
+            lines = o.to_lines(**_drop_defaults(dict(mode=mode, formatting=fmt_obj(f), no_escape=bool(noesc)), m))
+        else:
+            lines = o.to_lines(mode, fmt_obj(f), no_escape=bool(noesc))
     except (ValueError, IndexError) as e:
         return _err(e), None
     return "ok", lines
 
 
-def impl_stream(style, p, m, f, via="direct"):
+def impl_stream(style, p, m, f, via="direct", sess=None, call=None):
     """style: ["cur",save,lf] | ["lfall",noesc] | ["abs",px,py] | ["disp",pos|None,save,lf]
-    via: "direct" (ImagePlaceholder methods) | "term" (GraphicsTerminal.print_placeholder, style disp only)"""
+    via: "direct" (ImagePlaceholder methods) | "term" (GraphicsTerminal.print_placeholder, style disp only)
+    call["form"] (via term) says how the six fields reach print_placeholder:
+        {"base": None, "over": [i…]}                 keyword-only form: the fields `over` by keyword, the others LEFT OUT
+                                                     (the request p must then hold their default, 0)
+        {"base": "obj", "over": [i…], "junk": [6]}   an ImagePlaceholder (slot call["slot"]) holding p except at `over`,
+                                                     where it holds junk[i] and the keyword argument carries p[i]
+      without "form": the historical fixed split (three fields by object, three by keyword).
+    call["tid"]: which GraphicsTerminal of the session; call["omitopt"]: default-valued optional arguments left out."""
+    call = call or {}
     out = io.BytesIO()
+    start = 0
     try:
         mode = mode_obj(m)
         fo = fmt_obj(f)
         if via == "term":
             from tupimage.graphics_terminal import GraphicsTerminal
             assert style[0] == "disp"
-            term = GraphicsTerminal(out_command=io.BytesIO(), out_display=out, in_response=io.BytesIO(), in_userinput=io.BytesIO())
+            if sess is not None:
+                term, out = sess.term(call.get("tid", 0))
+                start = len(out.getvalue())
+            else:
+                term = GraphicsTerminal(out_command=io.BytesIO(), out_display=out, in_response=io.BytesIO(), in_userinput=io.BytesIO())
             pos = tuple(style[1]) if style[1] is not None else None
-            # half of the fields through the placeholder argument, half through the overrides
-            base = mods().ImagePlaceholder(image_id=p[0], placement_id=7, start_col=p[2], start_row=1, end_col=p[4], end_row=9)
-            term.print_placeholder(base, placement_id=p[1], start_row=p[3], end_row=p[5], pos=pos, mode=mode, formatting=fo,
-                                   use_save_cursor=bool(style[2]), use_line_feeds=bool(style[3]))
+            opt = dict(pos=pos, mode=mode, formatting=fo, use_save_cursor=bool(style[2]), use_line_feeds=bool(style[3]))
+            if call.get("omitopt"):
+                opt = _drop_defaults(opt, m)
+            form = call.get("form")
+            if form is None:
+                # half of the fields through the placeholder argument, half through the overrides
+                base = mods().ImagePlaceholder(image_id=p[0], placement_id=7, start_col=p[2], start_row=1, end_col=p[4], end_row=9)
+                term.print_placeholder(base, placement_id=p[1], start_row=p[3], end_row=p[5], **opt)
+            else:
+                over = list(form["over"])
+                kw = {FIELDS[i]: p[i] for i in over}
+                if form["base"] is None:
+                    if any(p[i] != 0 for i in range(6) if i not in over):
+                        raise ToolFailure(f"malformed case: a field left out of the keyword form must be requested as 0: {call}")
+                    term.print_placeholder(**kw, **opt)
+                else:
+                    fields = [form["junk"][i] if i in over else p[i] for i in range(6)]
+                    o = sess.placeholder(call.get("slot"), fields) if sess is not None else ph_obj(fields)
+                    term.print_placeholder(o, **kw, **opt)
         else:
-            o = ph_obj(p)
-            if style[0] == "cur":
+            o = sess.placeholder(call.get("slot"), p) if sess is not None else ph_obj(p)
+            if call.get("omitopt"):
+                if style[0] == "cur":
+                    o.to_stream_at_cursor(out, **_drop_defaults(dict(mode=mode, formatting=fo, use_save_cursor=bool(style[1]),
+                                                                     use_line_feeds=bool(style[2])), m))
+                elif style[0] == "lfall":
+                    o.to_stream_with_linefeeds(out, **_drop_defaults(dict(mode=mode, formatting=fo, no_escape=bool(style[1])), m))
+                elif style[0] == "abs":
+                    o.to_stream_abs_position(out, (style[1], style[2]), **_drop_defaults(dict(mode=mode, formatting=fo), m))
+                elif style[0] == "disp":
+                    pos = tuple(style[1]) if style[1] is not None else None
+                    o.to_stream(out, **_drop_defaults(dict(pos=pos, mode=mode, formatting=fo, use_save_cursor=bool(style[2]),
+                                                           use_line_feeds=bool(style[3])), m))
+                else:
+                    raise KeyError(style[0])
+            elif style[0] == "cur":
                 o.to_stream_at_cursor(out, mode, fo, use_save_cursor=bool(style[1]), use_line_feeds=bool(style[2]))
             elif style[0] == "lfall":
                 o.to_stream_with_linefeeds(out, mode, fo, no_escape=bool(style[1]))
@@ -132,117 +238,248 @@ def impl_stream(style, p, m, f, via="direct"):
                 raise KeyError(style[0])
     except (ValueError, IndexError) as e:
         return _err(e), None
-    return "ok", out.getvalue()
+    return "ok", out.getvalue()[start:]
 
 
 # ------------------------------------------------------------------------------------------
-# driver requests
+# sequences of calls in ONE process  (state the library keeps between calls: module-level caches,
+# shared default objects, per-object caches, the keyword form of print_placeholder, call order)
 # ------------------------------------------------------------------------------------------
-def req_lines(p, m, f, noesc):
-    return f"lines {ph_str(p)} {mode_str(m)} {fmt_str(f)} {int(noesc)}"
+def impl_call(sess, c):
+    """one call of a sequence -> (status, output); an unexpected exception is a status, not a harness error"""
+    f = c.get("fmt", {"t": "n"})
+    try:
+        if c["k"] in ("lines", "alone"):
+            return impl_lines(c["ph"], c["mode"], f, c.get("noesc", 0), sess, c)
+        if c["k"] == "stream":
+            return impl_stream(c["style"], c["ph"], c["mode"], f, c.get("via", "direct"), sess, c)
+    except ToolFailure:
+        raise
+    except Exception as e:
+        return "err " + type(e).__name__, None
+    raise ToolFailure(f"unknown call kind {c['k']}")
 
 
-def style_str(style):
-    if style[0] == "cur":
-        return f"cur:{int(style[1])}:{int(style[2])}"
-    if style[0] == "lfall":
-        return f"lf:{int(style[1])}"
-    if style[0] == "abs":
-        return f"abs:{style[1]}:{style[2]}"
-    if style[0] == "disp":
-        pos = "-" if style[1] is None else f"{style[1][0]}:{style[1][1]}"
-        return f"disp:{pos}:{int(style[2])}:{int(style[3])}"
-    raise KeyError(style[0])
+def run_calls(calls):
+    """the whole sequence on the real code, in this process -> [(status, output, modified slots)…]"""
+    sess = Session()
+    res = []
+    for c in calls:
+        st, out = impl_call(sess, c)
+        res.append((st, out, sess.modified()))
+    return res
 
 
-def req_stream(style, p, m, f):
-    return f"stream {style_str(style)} {ph_str(p)} {mode_str(m)} {fmt_str(f)}"
+def _enc(res):
+    return [[st, None if out is None else ([l.hex() for l in out] if isinstance(out, list) else out.hex()), mod] for st, out, mod in res]
 
 
-def req_spec(W, H, cx, cy, cub, rs, onlcr, sgr, data: bytes):
-    return f"spec {W} {H} {cx} {cy} {int(cub)} {int(rs)} {int(onlcr)} {sgr[0]} {sgr[1]} {sgr[2]} {hx(data)}"
+def _dec(res):
+    return [(st, None if out is None else ([bytes.fromhex(l) for l in out] if isinstance(out, list) else bytes.fromhex(out)), mod)
+            for st, out, mod in res]
 
 
-def model_lines(reply):
-    if not reply.startswith("ok"):
-        return reply, None
-    body = reply[3:]
-    return "ok", ([] if body == "" else [b"" if h == "-" else bytes.fromhex(h) for h in body.split(",")])
+def _serve_sequences():
+    """`python -m harness.ph_util --serve-sequences`: a process that has imported the library and never called it; for
+    every request line (a JSON list of calls) it forks, the child runs the sequence and answers.  So every sequence
+    starts from the state of a fresh interpreter — what `./check --replay` gives — whatever ran before it."""
+    import json
+    import os
+    import sys
+    import traceback
+    from .common import REPO
+    sys.path.insert(0, str(REPO))
+    import tupimage.placeholder  # noqa: F401
+    import tupimage.graphics_terminal  # noqa: F401
+    stdin, stdout = sys.stdin.buffer, sys.stdout.buffer
+    for line in stdin:
+        r, w = os.pipe()
+        pid = os.fork()
+        if pid == 0:
+            os.close(r)
+            try:
+                payload = json.dumps({"ok": _enc(run_calls(json.loads(line)))})
+            except BaseException:
+                payload = json.dumps({"fail": traceback.format_exc()[-1500:]})
+            with os.fdopen(w, "wb") as fw:
+                fw.write(payload.encode())
+            os._exit(0)
+        os.close(w)
+        with os.fdopen(r, "rb") as fr:
+            data = fr.read()
+        os.waitpid(pid, 0)
+        stdout.write((data or b'{"fail": "child wrote nothing"}') + b"\n")
+        stdout.flush()
 
 
-def model_bytes(reply):
-    if not reply.startswith("ok"):
-        return reply, None
-    body = reply[3:]
-    return "ok", (b"" if body in ("-", "") else bytes.fromhex(body))
+class Isolated:
+    """client of `--serve-sequences`"""
+
+    def __init__(self):
+        import queue
+        import subprocess
+        import sys
+        import threading
+        from .common import VERIF
+        self.p = subprocess.Popen([sys.executable, "-m", "harness.ph_util", "--serve-sequences"], cwd=str(VERIF),
+                                  stdin=subprocess.PIPE, stdout=subprocess.PIPE, bufsize=0)
+        self.q = queue.Queue()
+        threading.Thread(target=self._reader, daemon=True).start()
+
+    def _reader(self):
+        buf = b""
+        while True:
+            chunk = self.p.stdout.read(1 << 16)
+            if not chunk:
+                self.q.put(None)
+                return
+            buf += chunk
+            while True:
+                i = buf.find(b"\n")
+                if i < 0:
+                    break
+                self.q.put(buf[:i])
+                buf = buf[i + 1:]
+
+    def run_many(self, sequences):
+        import json
+        sequences = list(sequences)
+        self.p.stdin.write(b"".join(json.dumps(s).encode() + b"\n" for s in sequences))
+        out = []
+        for _ in sequences:
+            r = self.q.get(timeout=600)
+            if r is None:
+                raise ToolFailure("the sequence server died")
+            r = json.loads(r)
+            if "fail" in r:
+                raise ToolFailure("sequence server: " + r["fail"])
+            out.append(_dec(r["ok"]))
+        return out
+
+    def close(self):
+        try:
+            self.p.stdin.close()
+            self.p.wait(timeout=10)
+        except Exception:
+            self.p.kill()
 
 
-def parse_spec(reply):
-    """-> dict(cur=(x,y), sgr=[fg,ul,bg], scrolled=int, ph={(y,x):(id,pid,row,col)}, cells={(y,x):(ch,marks,fg,ul,bg)})"""
-    out = {}
-    for part in reply.split(" "):
-        k, _, v = part.partition("=")
-        out[k] = v
-    cx, cy = out["cur"].split(",")
-    ph = {}
-    if out.get("ph"):
-        for e in out["ph"].split(";"):
-            y, x, i, pid, r, c = (int(t) for t in e.split(","))
-            ph[(y, x)] = (i, pid, r, c)
-    cells = {}
-    if out.get("cells"):
-        for e in out["cells"].split(";"):
-            y, x, ch, marks, fg, ul, bg = e.split(",")
-            cells[(int(y), int(x))] = (int(ch), tuple(int(t) for t in marks.split(".") if t), fg, ul, bg)
-    return dict(cur=(int(cx), int(cy)), sgr=out["sgr"].split("/"), scrolled=int(out["scrolled"]), ph=ph, cells=cells)
+_ISOLATED = None
 
 
-# ------------------------------------------------------------------------------------------
-# expected screen positions (DESIGN.md A.5) — independent of the model
-# ------------------------------------------------------------------------------------------
-def expected(style, p, W, H, x0, y0):
-    """-> (cells {(y,x): (id,pid,row,col)}, final cursor (x,y), scrolled) for an addressable placeholder
-    whose width fits: x0 + C <= W (abs: px + C <= W and py + R <= H)."""
-    i, pid, sc, sr, ec, er = p
-    R, C = er - sr, ec - sc
-    kind = style[0]
-    if kind == "disp":
-        kind, style = ("abs", ["abs", style[1][0], style[1][1]]) if style[1] is not None else ("cur", ["cur", style[2], style[3]])
-    cells = {}
-    if kind == "abs":
-        px, py = style[1], style[2]
-        s = 0
-        pos = lambda a, b: (py + a, px + b)
-        cur = (px + C, py + R - 1)
-    elif kind == "cur" and not style[2]:
-        s = max(0, y0 + R - H)
-        pos = lambda a, b: (y0 - s + a, x0 + b)
-        cur = (x0 + C, min(y0 + R - 1, H - 1))
-    elif kind == "cur":
-        s = max(0, y0 + R - H)
-        pos = lambda a, b: (y0 - s + a, (x0 if a == 0 else 0) + b)
-        cur = ((x0 if R == 1 else 0) + C, min(y0 + R - 1, H - 1))
-    elif kind == "lfall":
-        s = max(0, y0 + R + 1 - H)
-        pos = lambda a, b: (y0 - s + a, (x0 if a == 0 else 0) + b)
-        cur = (0, min(y0 + R, H - 1))
-    else:
-        raise KeyError(kind)
-    for a in range(R):
-        if sr + a >= TABLE:
-            continue          # not addressable: printed as blanks
-        for b in range(C):
-            y, x = pos(a, b)
-            if y >= 0:
-                cells[(y, x)] = (i, pid, sr + a, sc + b)
-    return cells, cur, s
+def isolated() -> Isolated:
+    global _ISOLATED
+    if _ISOLATED is None:
+        import atexit
+        _ISOLATED = Isolated()
+        atexit.register(_ISOLATED.close)
+    return _ISOLATED
 
 
-def diff_cells(got: dict, want: dict, limit=4):
-    bad = []
-    for k in sorted(set(got) | set(want)):
-        if got.get(k) != want.get(k):
-            bad.append({"pos(y,x)": list(k), "decoded": got.get(k), "expected": want.get(k)})
-            if len(bad) >= limit:
-                break
-    return bad
+class SubCtx:
+    """what the per-call judge sees while judging call #i of a sequence: findings are collected and then reported on
+    the WHOLE sequence (cut after the failing call — later calls cannot matter), so that the replay re-creates the state"""
+
+    def __init__(self, ctx, i):
+        self.ctx, self.i = ctx, i
+        self.found = []
+
+    def driver(self, name):
+        return self.ctx.driver(name)
+
+    def count(self, key, n=1):
+        self.ctx.count(key, n)
+
+    def violation(self, what, case, detail=None, key=None):
+        self.found.append(("F", what, case, detail, key or what))
+
+    def mismatch(self, what, case, impl, model):
+        self.found.append(("K", what, case, impl, model))
+
+
+class _Probe:
+    """a context that only records the keys of violations (used while minimising)"""
+    no_minimise = True
+
+    def __init__(self, ctx):
+        self.ctx, self.keys = ctx, []
+
+    def driver(self, name):
+        return self.ctx.driver(name)
+
+    def count(self, key, n=1):
+        pass
+
+    def violation(self, what, case, detail=None, key=None):
+        self.keys.append(key or what)
+
+    def mismatch(self, what, case, impl, model):
+        pass
+
+
+def seq_requests(c, res, reqs_fn):
+    """-> (impl, flat requests) of a sequence case whose calls produced `res`"""
+    per = [reqs_fn(call, (st, out)) for call, (st, out, _mod) in zip(c["calls"], res)]
+    return ("seq", res, [len(r) for r in per]), [r for rs in per for r in rs]
+
+
+def seq_judge(ctx, c, impl, replies, judge_fn, check_fn=None):
+    """every call judged on its own (judge_fn = the judge of single cases) against what THAT call requested"""
+    _, res, counts = impl
+    ctx.count("kind:seq")
+    ctx.count("seq-len:%d" % min(len(res), 8))
+    k = 0
+    seen_mod = []
+    for i, (call, (st, out, mod), n) in enumerate(zip(c["calls"], res, counts)):
+        sub = SubCtx(ctx, i)
+        form = call.get("form")
+        ctx.count("seq-entry:" + (call.get("via", "direct") + ("" if form is None else (":kw" if form["base"] is None else
+                                  (":obj" if not form["over"] else ":obj+kw")))))
+        if form is not None and form["base"] is None and len(form["over"]) < 6:
+            ctx.count("seq-kw-fields-left-out", 6 - len(form["over"]))
+        judge_fn(sub, call, (st, out), replies[k:k + n])
+        k += n
+        if mod != seen_mod:
+            sub.mismatch("the call changed the caller's ImagePlaceholder object", call, {"slots": mod}, {"slots": seen_mod})
+            seen_mod = mod
+        if not sub.found:
+            continue
+        whole = dict(c, calls=c["calls"][:i + 1])
+        fkeys = [f[4] for f in sub.found if f[0] == "F"]
+        if fkeys:
+            ctx.count("seq-F-at-call:%d" % min(i, 8))
+            if check_fn is not None and not getattr(ctx, "no_minimise", False) and i > 0 and ctx.dist.get("seq-minimised", 0) < 3:
+                ctx.count("seq-minimised")
+                whole = seq_minimise(ctx, whole, fkeys[0], check_fn)
+        last = len(whole["calls"]) - 1
+        for f in sub.found:
+            if f[0] == "F":
+                _, what, case, detail, key = f
+                ctx.violation(f"call #{last} of a sequence of calls in one process: {what}", whole,
+                              {"call": last, "request": case, "detail": detail}, key=key)
+            else:
+                _, what, case, im, mo = f
+                ctx.mismatch(what + " (call in a sequence)", whole, {"call": last, "impl": im}, mo)
+        if fkeys:
+            break          # what follows a broken call is not judged
+
+
+def seq_minimise(ctx, c, key, check_fn):
+    """A sub-sequence (ending with the same call) that still fails with `key`, every candidate run in its own fresh
+    process: the last call alone, else one earlier call + the last, else the sequence as it is."""
+    calls = c["calls"]
+    cands = [[calls[-1]]] + [[calls[j], calls[-1]] for j in range(len(calls) - 2, -1, -1)]
+    for cand in cands:
+        if len(cand) >= len(calls):
+            break
+        p = _Probe(ctx)
+        check_fn(p, dict(c, calls=cand))
+        if key in p.keys:
+            return dict(c, calls=cand)
+    return c
+
+
+if __name__ == "__main__":
+    import sys as _sys
+    if "--serve-sequences" in _sys.argv:
+        _serve_sequences()
